@@ -3,7 +3,8 @@ Model: coq/Model/RpcErrors.v; spec: coq/Spec/RpcErrorsSpec.v; theorems: coq/Prop
 Implementation driven: real RPCReply, RPC._request (through Manager.execute on a fake session that delivers
 the scripted reply through Session._dispatch_message / RPCReplyListener.callback), real device handlers
 (make_device_handler, all shipped profiles), real manager.connect_ssh/_tls/_uds plumbing with the transport
-classes rebound to the fake session."""
+classes rebound to the fake session.  Histories of connects over shared caller objects: harness/connhist.py,
+coq/Model/ConnectHistory.v (theorems C06_connect_frame, C06_history_*)."""
 import os, re, ast, json, itertools, warnings
 import xml.etree.ElementTree as ET
 
@@ -15,7 +16,16 @@ RULE = ('replies with 0..4 rpc-errors (severity in error/warning/absent/other/pa
         'degenerate *, **, empty) placed in the profile and/or given by the user x 14 device profiles x route (Manager '
         'built directly / through connect_ssh, connect_tls, connect_uds). Exhaustive block: severities^<=3 x 3 modes x '
         '16 pattern sets; exhaustive matcher block: patterns^<=3 x messages^<=3 over a 4-letter alphabet. A case is '
-        '(reply text, mode, profile, profile patterns, user patterns, route); non-trivial = the reply has an rpc-error.')
+        '(reply text, mode, profile, profile patterns, user patterns, route); non-trivial = the reply has an rpc-error. '
+        'History blocks: 2..4 connects (routes by hand / connect / connect_ssh / connect_tls / connect_uds, attempts refused by '
+        'session.connect) that pass the SAME caller-owned dictionaries (device_params with a handler class of the caller - plain, '
+        'own __init__, tuple list, subclass of a shipped profile - or a profile name, manager_params, nc_params, errors_params) '
+        'and handler classes; after every connect the caller\'s dictionaries, the class-level _EXEMPT_ERRORS of his classes and of '
+        'the shipped profiles are compared with their state before, and EVERY manager obtained so far surfaces every probe reply '
+        '(messages derived from each pattern in play) - checked against the property sentence with the profile / patterns / mode '
+        'of its own connect as written in the case, against the model (run_history, fn 4) and against the other managers asked '
+        'for the same. Exhaustive: ordered route pairs x 6 kinds of device_params x first attempt refused or not, followed by a '
+        'manager built by hand from the same dictionaries.')
 ASSUMES = ['str.lower()/str.strip() of CPython behave as Model.RpcErrors.lower/strip on ASCII text (validated by every case; '
            'non-ASCII letters with case and non-ASCII white space are outside the modelled domain)',
            'lxml presents a reply as the tree the independent reader (xml.etree with comments kept) sees: tag, text before the '
@@ -203,22 +213,24 @@ def impl_run(case):
         out['parse'] = [pk[0], pk[1], pk[2]]
     except Exception as e:
         out['parse'] = ['exc', type(e).__name__]
+    out['call'] = impl_call(m, case.get('op', 'lock'))
+    return out
+
+def impl_call(m, op='lock'):
+    """One synchronous operation on a manager; the scripted peer answers with the current reply."""
+    from ncclient.operations import RPCError
     try:
-        op = case.get('op', 'lock')
         r = m.lock('running') if op == 'lock' else (m.get_config(source='running') if op == 'get_config' else m.discard_changes())
         if hasattr(r, 'errors') and hasattr(r, 'ok'):
-            out['call'] = ['return', r.ok, [err_tuple(e) for e in r.errors]]
-        else:
-            out['call'] = ['return', None, None]
+            return ['return', r.ok, [err_tuple(e) for e in r.errors]]
+        return ['return', None, None]
     except RPCError as e:
         if e.errlist is None:
-            out['call'] = ['raise', 'single', err_tuple(e), e.severity, e.message]
-        else:
-            out['call'] = ['raise', 'aggregate', [err_tuple(x) for x in e.errlist], e.severity, e.message,
-                           [err_tuple(x) for x in e.errors] == [err_tuple(x) for x in e.errlist]]
+            return ['raise', 'single', err_tuple(e), e.severity, e.message]
+        return ['raise', 'aggregate', [err_tuple(x) for x in e.errlist], e.severity, e.message,
+                [err_tuple(x) for x in e.errors] == [err_tuple(x) for x in e.errlist]]
     except Exception as e:
-        out['call'] = ['exc', type(e).__name__, str(e)[:200]]
-    return out
+        return ['exc', type(e).__name__, str(e)[:200]]
 
 # ------------------------------------------------------------------ model
 def dec_opt(v): return v[0].decode() if v else None
@@ -473,6 +485,276 @@ def run_matcher(ctx):
             ctx.fail(case, 'is_rpc_error_exempt(%r) with patterns %r: implementation %r, "*" semantics %r' % (m, ps, im, sp),
                      sig=None, expected=sp, actual=im)
 
+# ------------------------------------------------------------------ histories of connects over shared caller objects
+# (harness/connhist.py; model: coq/Model/ConnectHistory.v, glue fn 4; theorems C06_history_*)
+HROUTE = {'direct': 0, 'connect_ssh': 1, 'connect_tls': 2, 'connect_uds': 3, 'connect': 4}
+
+def class_pats(spec):
+    """exempt list of a caller's handler class, from the case text (shipped part read from the source with ast)"""
+    return (profile_patterns(spec['shape'][4:]) if spec['shape'].startswith('sub:') else []) + list(spec['pats'])
+
+def asked(case, st):
+    """What the caller asks for with this connect, read from the CASE (his objects as he wrote them):
+    (profile label, profile patterns, user patterns or None, raise mode or None)."""
+    dp = case['pool'][st['dp']] if st.get('dp') is not None else None
+    ep = case['pool'][st['ep']] if st.get('ep') is not None else None
+    h = (dp or {}).get('handler')
+    if h:
+        prof, pp = '@custom', class_pats(case['classes'][h['@cls']])
+    else:
+        prof = (dp or {}).get('name', 'default'); pp = profile_patterns(prof)
+    return prof, pp, (ep or {}).get('ignore_errors'), (ep or {}).get('raise_mode')
+
+def pv_enc(v, case):
+    if isinstance(v, bool): return [0, int(v)]
+    if isinstance(v, int): return [0, v]
+    if isinstance(v, str): return [1, v.encode()]
+    if isinstance(v, list) and all(isinstance(x, str) for x in v): return [2, [x.encode() for x in v]]
+    if isinstance(v, dict) and set(v) == {'@cls'}: return [3, v['@cls'], [x.encode() for x in class_pats(case['classes'][v['@cls']])]]
+    if v is None: return [4]
+    return [5, repr(v).encode()]
+
+def pv_of_snap(sn):
+    """the same encoding from a connhist.snap picture of the live object"""
+    t = sn[0]
+    if t == 'n': return [0, sn[1]]
+    if t == 's': return [1, sn[1].encode()]
+    if t in ('l', 't') and all(x[0] == 's' for x in sn[1]): return [2, [x[1].encode() for x in sn[1]]]
+    if t == 'h': return [3, sn[1], pv_of_snap(sn[2])[1] if sn[2][0] in ('l', 't') else None]
+    if t == 'none': return [4]
+    return [5, b'?']
+
+def hist_model_call(case):
+    opt = lambda x: [] if x is None else [x]
+    profs = [[n.encode(), [x.encode() for x in profile_patterns(n)]] for n in profile_names()]
+    pool = [[i, [[k.encode(), pv_enc(v, case)] for k, v in d.items()]] for i, d in enumerate(case['pool'])]
+    steps = [[HROUTE[st['route']], opt(st.get('dp')), opt(st.get('mp')), opt(st.get('np')), opt(st.get('ep')),
+              opt(st.get('timeout')), 1 if st.get('fail') else 0] for st in case['steps']]
+    return [4, profs, pool, steps]
+
+def probe_case(case, st, reply):
+    prof, pp, user, mode = asked(case, st)
+    return mk_case(reply, mode, prof, pp, user, st['route'])
+
+_PARSE = {}
+def parse_cached(reply):
+    if reply not in _PARSE:
+        if len(_PARSE) > 4000: _PARSE.clear()
+        try:
+            pk = impl_parse(reply.replace('@MID@', 'x')); _PARSE[reply] = [pk[0], pk[1], pk[2]]
+        except Exception as e:
+            _PARSE[reply] = ['exc', type(e).__name__]
+    return _PARSE[reply]
+
+def same_surface(a, b):
+    """two observations of one reply agree (a vendor reply class without .ok/.errors shows as ['return', None, None])"""
+    if a[0] == 'return' and b[0] == 'return' and (a[1] is None or b[1] is None): return True
+    return a == b
+
+def run_history_case(case, model=None):
+    """Run one history on the implementation. model = (fn-4 output, {(k, probe): index}, decision outputs) or None.
+    Returns dict(fails=[(what, sig, expected, actual)], disagrees=[(what, model, impl)], probes=[(k, j, pi, call)], events=[...])."""
+    from harness import connhist
+    warnings.simplefilter('ignore')
+    fails, dis, probes, events = [], [], [], []
+    cell = {'reply': None}
+    managers = []                      # (step index, manager)
+    op = case.get('op', 'lock')
+    for ev in connhist.run(case, cell):
+        k, st = ev.k, ev.step
+        tag = 'connect #%d (%s)' % (k + 1, st['route'])
+        refused = bool(st.get('fail')) and st['route'] != 'direct'
+        events.append(dict(k=k, route=st['route'], result=('manager' if ev.manager is not None else ev.raised), altered=ev.altered,
+                           handler_class=ev.handler_class))
+        # -- the caller's objects are his: a connect (successful or refused) leaves them as they were
+        for i in ev.altered:
+            if isinstance(i, int):
+                kinds = sorted({kd for s2 in case['steps'] for kd in connhist.KINDS if s2.get(kd) == i})
+                fails.append(("%s altered the caller's dictionary #%d (%s)%s" % (tag, i, '/'.join(connhist.ARG[x] for x in kinds),
+                              '' if i in ev.altered_now else ' [altered by an earlier connect]'), None, ev.before[i] if i in ev.altered_now else case['pool'][i], ev.after[i]))
+            else:
+                fails.append(("%s altered the class-level _EXEMPT_ERRORS of %s" % (tag, "the caller's handler " + i if i.startswith('class')
+                              else 'the shipped profile ' + i[8:]), None, None, None))
+        # -- the connect itself
+        if refused:
+            if ev.manager is not None or ev.raised is None or ev.raised[0] != 'ScriptedRefusal':
+                fails.append(('%s: the refusal of session.connect() did not propagate' % tag, None, ['ScriptedRefusal'],
+                              ev.raised or 'manager returned'))
+        elif ev.manager is None:
+            fails.append(('%s raised %s' % (tag, ev.raised), None, 'a manager', ev.raised))
+        if model is not None:
+            mpool, mconns = model[0]
+            mc = mconns[k]
+            live = [[i, sorted([kk.encode(), pv_of_snap(x)] for kk, x in sn[1])] for i, sn in enumerate(ev.after)]
+            mp_sorted = [[o[0], sorted(o[1])] for o in mpool]
+            if live != mp_sorted:
+                dis.append(("caller's objects after %s" % tag, mp_sorted, live))
+            if mc[0] == 0 and ev.manager is not None:
+                got = [[x.encode() for x in ev.manager._device_handler._EXEMPT_ERRORS], ev.manager._raise_mode, ev.manager._timeout]
+                if got != [mc[1], mc[2], mc[3]]:
+                    dis.append(('manager of %s (exempt list, raise mode, timeout)' % tag, mc[1:], got))
+            elif (mc[0] == 0) != (ev.manager is not None) or (mc[0] == 1) != (ev.raised is not None and ev.raised[0] == 'ScriptedRefusal'):
+                dis.append(('result of %s' % tag, mc, ev.raised or 'manager'))
+        if ev.manager is not None:
+            managers.append((k, ev.manager))
+        # -- every manager obtained so far surfaces every probe reply by ITS OWN connect's parameters
+        order = managers if case.get('order', 0) == 0 else managers[::-1]
+        seen = {}
+        for j, m in order:
+            sj = case['steps'][j]
+            for pi, reply in enumerate(case['probes']):
+                cell['reply'] = reply
+                call = impl_call(m, op)
+                probes.append((k, j, pi, call))
+                pc = probe_case(case, sj, reply)
+                im = dict(parse=parse_cached(reply), call=call)
+                for what, sig, e, a in check_oracle(pc, im):
+                    fails.append(('manager of connect #%d (%s) after %s, probe %d: %s' % (j + 1, sj['route'], tag, pi, what), sig, e, a))
+                if model is not None and (j, pi) in model[1]:
+                    o = model[1][(j, pi)]
+                    for what, mo, io in compare_model(pc, model[2][o:o + 2], im):
+                        dis.append(('manager of connect #%d after %s, probe %d: %s' % (j + 1, tag, pi, what), mo, io))
+                # managers whose connects asked for the same thing decide alike
+                a_ = asked(case, sj); key = json.dumps([a_[1], a_[2] or [], 2 if a_[3] is None else a_[3], pi], sort_keys=True)
+                if key in seen and not same_surface(seen[key][1], call):
+                    fails.append(('managers of connects #%d and #%d were asked for the same profile / patterns / mode but surface probe %d differently'
+                                  % (seen[key][0] + 1, j + 1, pi), None, seen[key][1], call))
+                seen.setdefault(key, (j, call))
+    return dict(fails=fails, disagrees=dis, probes=probes, events=events)
+
+def hist_models(model, cases):
+    """fn 4 for every history, then the decisions (fn 1 on the model's manager, fn 3 on what was asked) per manager and probe."""
+    if model is None: return [None] * len(cases)
+    m4 = model.batch([hist_model_call(c) for c in cases])
+    calls, spans = [], []
+    for c, out in zip(cases, m4):
+        trees = [node_val(read_tree(r.replace('@MID@', 'x'))) for r in c['probes']]
+        span = {}
+        for k, cn in enumerate(out[1]):
+            if cn[0] != 0: continue
+            prof, pp, user, mode = asked(c, c['steps'][k])
+            for pi, t in enumerate(trees):
+                span[(k, pi)] = len(calls)
+                calls.append([1, t, cn[2], cn[1]])
+                calls.append([3, [x.encode() for x in pp], [[x.encode() for x in user]] if user is not None else [],
+                              [] if mode is None else [mode], t])
+        spans.append(span)
+    douts = model.batch(calls) if calls else []
+    return [(o, sp, douts) for o, sp in zip(m4, spans)]
+
+def eval_histories(ctx, cases, label):
+    import hashlib
+    models = hist_models(ctx.model, cases)
+    for c, mo in zip(cases, models):
+        res = run_history_case(c, mo)
+        hid = hashlib.blake2b(json.dumps(c, sort_keys=True).encode(), digest_size=8).hexdigest()
+        ctx.traces += 1
+        ctx.hist('block', label); ctx.hist('history_steps', len(c['steps']))
+        ctx.hist('history_routes', '>'.join(st['route'].replace('connect_', '') for st in c['steps']))
+        for e in res['events']:
+            ctx.hist('history_step_result', 'manager' if e['result'] == 'manager' else e['result'][0])
+        for k, j, pi, call in res['probes']:
+            ctx.count(None, nontrivial=True, key=[hid, k, j, pi])
+            ctx.hist('impl_outcome', call[0] + ('/' + call[1] if call[0] == 'raise' else ''))
+            ctx.hist('history_probe', 'newest manager' if j == k else 'earlier manager again')
+        if ctx.traces % 199 == 1: ctx.sample({'case': c, 'events': res['events']})
+        for what, mo_, io in res['disagrees']:
+            ctx.disagree(c, mo_, io, 'model vs implementation: ' + what, theorem='C06_history_independent/C06_history_decision')
+        for what, sig, e, a in res['fails'][:3]:
+            ctx.fail(c, what, sig=sig, expected=e, actual=a)
+
+def msg_for(p, i=0):
+    """a message the pattern p matches (mixed case, padded), XML-safe for the patterns used here"""
+    core = p
+    lead = core.startswith('*'); core = core[1:] if lead else core
+    trail = core.endswith('*'); core = core[:-1] if trail else core
+    core = core.swapcase() if i % 2 else core
+    return ' ' + ('zz' if lead else '') + core + ('yy' if trail else '') + ' '
+
+CLASS_PATS = [['*object already exists*'], ['msg a'], ['*vlan*', 'zz'], ['MSG*', '*b'], ['*exists y'], ['lock held*'], ['*same name*']]
+HUSER = [None, [], ['*failure'], ['msg a'], ['commit*'], ['*nearly full'], ['zz']]
+
+def hist_probes(case, rng=None):
+    pats = []
+    for st in case['steps']:
+        _, pp, user, _ = asked(case, st)
+        for x in list(pp) + list(user or []):
+            if x not in pats and x.strip('*'): pats.append(x)
+    for sp in case['classes']:
+        for x in class_pats(sp):
+            if x not in pats and x.strip('*'): pats.append(x)
+    e = lambda sev, msg: simple_error(sev, msg)
+    fixed = [reply_xml(e('error', 'commit failed')), reply_xml(e('warning', 'disk nearly full')),
+             reply_xml(e('warning', 'w') + e('error', 'commit failed'))]
+    per = []
+    for i, x in enumerate(pats):
+        per.append(reply_xml(e('error', msg_for(x, i))))
+        per.append(reply_xml(e('warning', msg_for(x, i + 1)) + e('error', 'commit failed')))
+    if rng is None:
+        return per[:2] + fixed[:2] if per else fixed
+    out = per[:1] + rng.sample(per[1:], min(len(per) - 1, 2)) if per else []
+    return out + rng.sample(fixed, 2)
+
+def gen_hist_pairs(thorough):
+    """every ordered pair of routes x kind of device_params x first attempt refused or not, all four dictionaries shared,
+    followed by a manager built by hand from the same device_params / manager_params and no errors_params."""
+    from harness import connhist
+    cases, n = [], 0
+    dpkinds = ['plain', 'init', 'tuple', 'sub:nexus', 'name:nexus', 'none']
+    for r1 in connhist.ROUTES:
+        for r2 in connhist.ROUTES:
+            for dk in dpkinds:
+                for refused in (False, True):
+                    if refused and r1 == 'direct': continue
+                    for mode in ((0, 1, 2) if thorough else ((n % 3),)):
+                        n += 1
+                        classes = [] if dk in ('none',) or dk.startswith('name:') else [dict(shape=dk, pats=CLASS_PATS[n % len(CLASS_PATS)])]
+                        dp = {'handler': {'@cls': 0}, 'site': 'lab'} if classes else ({'name': dk[5:]} if dk.startswith('name:') else {})
+                        pool = [dp, {'timeout': 7}, {'raise_mode': mode, 'ignore_errors': HUSER[2 + n % (len(HUSER) - 2)]}, {'capabilities': ['urn:x:cap:1.0']}]
+                        sh = dict(dp=0, mp=1, ep=2, np=3)
+                        steps = [dict(route=r1, fail=refused, timeout=None, **sh), dict(route=r2, fail=False, timeout=(5 if n % 4 == 0 else None), **sh),
+                                 dict(route='direct', dp=0, mp=1, ep=None, np=None, fail=False, timeout=None)]
+                        c = dict(history=True, classes=classes, pool=pool, steps=steps, order=n % 2, op='lock')
+                        c['probes'] = hist_probes(c)
+                        cases.append(c)
+    return cases
+
+def gen_hist_random(rng, n, profiles):
+    from harness import connhist
+    cases = []
+    named = [p for p in profiles if p not in ('default',)]
+    for _ in range(n):
+        classes = [dict(shape=rng.choice(['plain', 'plain', 'init', 'tuple', 'sub:nexus']), pats=rng.choice(CLASS_PATS))
+                   for _ in range(rng.choice([1, 1, 2]))]
+        pool, idx = [], {k: [] for k in connhist.KINDS}
+        for _ in range(rng.choice([1, 1, 2])):
+            r = rng.random()
+            if r < 0.6:
+                d = {'handler': {'@cls': rng.randrange(len(classes))}}
+                if rng.random() < 0.4: d['site'] = 'lab'
+                if rng.random() < 0.2: d['ssh_subsystem_name'] = 'netconf'
+            elif r < 0.85: d = {'name': rng.choice(named)}
+            else: d = {}
+            idx['dp'].append(len(pool)); pool.append(d)
+        idx['mp'].append(len(pool)); pool.append(rng.choice([{}, {'timeout': 7}, {'timeout': 45}]))
+        if rng.random() < 0.6:
+            idx['np'].append(len(pool)); pool.append(rng.choice([{}, {'capabilities': ['urn:x:cap:1.0']}]))
+        for _ in range(rng.choice([1, 2, 2])):
+            d = {}
+            if rng.random() < 0.75: d['raise_mode'] = rng.choice([0, 1, 1, 2, 2])
+            if rng.random() < 0.7: d['ignore_errors'] = rng.choice(HUSER[1:])
+            idx['ep'].append(len(pool)); pool.append(d)
+        steps = []
+        for _ in range(rng.choice([2, 2, 3, 3, 4])):
+            st = dict(route=rng.choice(connhist.ROUTES), timeout=rng.choice([None, None, 3, 11]), fail=rng.random() < 0.25)
+            for kd in connhist.KINDS:
+                st[kd] = rng.choice(idx[kd]) if idx[kd] and rng.random() < (0.9 if kd in ('dp', 'ep') else 0.7) else None
+            steps.append(st)
+        c = dict(history=True, classes=classes, pool=pool, steps=steps, order=rng.randrange(2), op=rng.choice(['lock', 'lock', 'get_config', 'discard']))
+        c['probes'] = hist_probes(c, rng)
+        cases.append(c)
+    return cases
+
 # ------------------------------------------------------------------ driver
 def eval_cases(ctx, cases, label):
     roots = []
@@ -508,12 +790,18 @@ def corpus_cases():
 def all_cases(ctx):
     thorough = ctx.tier == 'thorough'
     profiles = profile_names()
-    blocks = [('corpus', corpus_cases()), ('f6', gen_f6()), ('exhaustive', gen_exhaustive()),
+    blocks = [('corpus', [c for c in corpus_cases() if not c.get('history')]), ('f6', gen_f6()), ('exhaustive', gen_exhaustive()),
               ('fields', gen_fields(ctx.rng, thorough)), ('profiles', gen_profiles(profiles)),
               ('random', gen_random(ctx.rng, 100000 if thorough else 2500, profiles))]
     return blocks
 
 def run(ctx):
+    thorough = ctx.tier == 'thorough'
+    # histories first: a history builds every object it shares from its own text, so its failure replays in a fresh process
+    # (a leak through a shipped class can also make a LATER single case fail, which alone does not reproduce)
+    eval_histories(ctx, [c for c in corpus_cases() if c.get('history')], 'history-corpus')
+    eval_histories(ctx, gen_hist_pairs(thorough), 'history-pairs')
+    eval_histories(ctx, gen_hist_random(ctx.rng, 8000 if thorough else 350, profile_names()), 'history-random')
     for label, cases in all_cases(ctx):
         eval_cases(ctx, cases, label)
     run_matcher(ctx)
@@ -526,12 +814,21 @@ def search(ctx, seeds):
     """Tie broke: evaluate the property sentence (oracle only) on the seeds and on fresh generated cases."""
     from vlib import findings
     rng = ctx.rng
-    tries = [c for c in seeds if isinstance(c, dict) and 'reply' in c]
+    tries = [c for c in seeds if isinstance(c, dict) and 'reply' in c and not c.get('history')]
     tries += gen_f6() + gen_exhaustive() + gen_fields(rng, True) + gen_profiles(profile_names()) + gen_random(rng, 6000, profile_names())
     for c in tries:
         try:
             im = impl_run(c)
             fs = check_oracle(c, im)
+        except Exception as e:
+            return dict(case=c, what='harness could not evaluate: %r' % e, sig=None, expected=None, actual=None)
+        for what, sig, e, a in fs:
+            if not findings.covered(ID, sig):
+                return dict(case=c, what=what, sig=sig, expected=e, actual=a)
+    hists = [c for c in seeds if isinstance(c, dict) and c.get('history')]
+    for c in hists + gen_hist_pairs(False) + gen_hist_random(rng, 1500, profile_names()):
+        try:
+            fs = run_history_case(c)['fails']
         except Exception as e:
             return dict(case=c, what='harness could not evaluate: %r' % e, sig=None, expected=None, actual=None)
         for what, sig, e, a in fs:
@@ -547,6 +844,10 @@ def reproduce(finding):
     w = finding['witness']
     if w.get('matcher'):
         return impl_exempt(w['pats'], w['msg']) != any(o_matches(p, o_text(w['msg'])) for p in w['pats'])
+    if w.get('history'):
+        fs = run_history_case(w)['fails']
+        want = finding.get('sig')
+        return any(sig == want for _, sig, _, _ in fs) if want else bool(fs)
     c = mk_case(w['reply'], w.get('mode'), w.get('profile'), w.get('profile_pats'), w.get('user'), w.get('route', 'direct'))
     fs = check_oracle(c, impl_run(c))
     want = finding.get('sig')
@@ -558,6 +859,18 @@ def replay(doc):
         im = impl_exempt(c['pats'], c['msg']); sp = any(o_matches(p, o_text(c['msg'])) for p in c['pats'])
         print('case     :', c); print('expected :', sp); print('actual   :', im)
         return im == sp
+    if c.get('history'):
+        res = run_history_case(c)
+        print('case     :', json.dumps(c))
+        print('expected : every connect leaves the caller\'s dictionaries and handler classes as they were; every manager surfaces '
+              'every probe by the profile / patterns / mode its own connect was given:')
+        for k, st in enumerate(c['steps']):
+            print('           connect #%d %s: %s' % (k + 1, st['route'], ('refused' if st.get('fail') and st['route'] != 'direct' else asked(c, st))))
+        print('actual   :', json.dumps(res['events']))
+        for k, j, pi, call in res['probes']:
+            print('           after #%d, manager of #%d, probe %d: %s' % (k + 1, j + 1, pi, call[:2]))
+        for what, sig, e, a in res['fails']: print('fails    :', what, '(sig %s)' % sig, '| expected', e, '| actual', a)
+        return not res['fails']
     im = impl_run(c)
     exp, has_ok, _ = oracle(c)
     fs = check_oracle(c, im)
